@@ -106,6 +106,16 @@ CHECKS = {
         technique='SMT translation validation of emitted JavaScript (updaters vs creation) + Kani harnesses',
         design='§4 C07',
     ),
+    'C14': dict(
+        engine='J', category='translation_validation',
+        text='Behavioural equivalence of re-printed templates: for every program t of the families of C03 (sampled), C05 and C06 (sampled) plus stringifier-specific '
+             'shapes (mixed text, text that decodes to {{, quotes, childless scope-introducing elements, every attribute family), t and print(parse(t)) are both compiled; '
+             'the two emitted programs are executed symbolically in creation and update mode and compared site by site: protocol structure exactly, value terms, guards and '
+             'paths by z3 for all data / scope values / update trees.  Re-parse diagnostics and the print fixpoint are recorded as supporting data only.',
+        note='Trusted: jssym interpreter; identical structure gives identical fresh scope symbols on both sides.  Scope-name mangling and ill-formed inputs are outside.',
+        technique='SMT translation validation (pairwise comparison of two compilations of the real compiler)',
+        design='§4 C14',
+    ),
     'C15': dict(
         engine='K+M', category='model_checking',
         text='Locations of diagnostics: Kani proves one inductive step of the position invariant (cursor on a char boundary, never backwards, (line, utf16 col) = '
